@@ -6,11 +6,13 @@ CONSTANTS
  HashSession = TRUE
  HashId = TRUE
  DedupMode = "peer+id"
+ AtomicDedup = TRUE
  AllowRelay = TRUE
  MCCfgs <- Cfg3
  Bodies = {x}
  MaxFSig = 4
  MaxB = 0
+ Conc = 0
  Lists = "attack"
 SYMMETRY Sym
 INVARIANTS Safety
